@@ -83,6 +83,44 @@ def reachable(root_abs):
     return seen, ids
 
 
+def job_nonutf8(res, rng, w, home):
+    """Names that are not valid UTF-8: sibling directories that look alike when printed are different real directories, each
+    traversed once, whether they are reached directly or through a link. Rows are printed lossily, so they are counted."""
+    base = os.path.join(w, "nu").encode()
+    os.mkdir(base)
+    pa, pb = rng.choice([(b"d\xfe", b"d\xff"), (b"x\x80", b"x\x81"), (b"\xe9t\xe9", b"\xe8t\xe8")])
+    entries = []
+    for pd in (pa, pb):
+        os.makedirs(os.path.join(base, pd, b"inner"))
+        for leaf in (b"one", b"inner/two"):
+            open(os.path.join(base, pd, leaf), "wb").close()
+        entries += [pd, pd + b"/inner", pd + b"/one", pd + b"/inner/two"]
+    os.mkdir(os.path.join(base, b"plain"))
+    os.symlink(b"../" + pa, os.path.join(base, b"plain", b"ln"))       # a link to the first of the two
+    entries += [b"plain", b"plain/ln"]
+    for mode in ("", " dfs", " bfs"):
+        query = "path from nu symlinks%s into list" % mode
+        r = runner.run([query], cwd=w, home=home)
+        res.ev()
+        ctx = {"query": query, "entries": [repr(e) for e in entries], "result": r.brief()}
+        if r.verdict != "ok" or r.rc != 0 or r.err or r.panicked:
+            if r.verdict in ("ok", "busy", "blocked"):
+                res.viol("`%s` on names that are not valid UTF-8: %s, status %s, stderr %r" % (query, r.verdict, r.rc, r.err[:160]), ctx)
+            continue
+        got = sorted(r.out.decode("utf-8", "replace").split("\0")[:-1]) if r.out else []
+        # the first directory is listed under its own path or under the link, never twice; everything else exactly once
+        lossy = lambda b: ("nu/" + b.decode("utf-8", "replace"))
+        fixed = sorted(lossy(e) for e in entries if not e.startswith(pa + b"/"))
+        via_own = sorted(fixed + [lossy(e) for e in entries if e.startswith(pa + b"/")])
+        via_link = sorted(fixed + [lossy(b"plain/ln/" + e[len(pa) + 1:]) for e in entries if e.startswith(pa + b"/")])
+        if got not in (via_own, via_link):
+            res.viol("`%s`: %d rows; the %d entries behind two look-alike directories and a link are not each listed once (differs: %s)" % (
+                query, len(got), len(via_own), sorted(set(got) ^ set(via_own))[:4]), ctx)
+            continue
+        res.cover("cases", "non-utf8-siblings")
+        res.nt("nonutf8|%r|%s" % (pa, mode))
+
+
 def run_job(job):
     res = JobResult()
     rng = random.Random(job["seed"])
@@ -90,6 +128,9 @@ def run_job(job):
     try:
         w = runner.work_dir(sc)
         home = runner.make_home(sc)
+        if job.get("kind") == "nonutf8":
+            job_nonutf8(res, rng, w, home)
+            return res
         root_name = rng.choice(["t", "r-1", "ŕ3"])
         root = os.path.join(w, root_name)
         os.mkdir(root)
@@ -223,6 +264,7 @@ def main(chk):
     quick = chk.tier == "quick"
     n = 1600 if quick else 6000
     jobs = [{"id": "j%d" % i, "seed": job_seed(chk.seed, "C18", i), "queries": 6 if quick else 12} for i in range(n)]
+    jobs += [{"id": "nu%d" % i, "kind": "nonutf8", "seed": job_seed(chk.seed, "C18", "nu%d" % i)} for i in range(12 if quick else 60)]
     chk.run_jobs(jobs, budget_s=420 if quick else 3000)
     return chk.finish(
         rule="random trees decorated with 1..8 links: absolute and relative targets, to directories inside / outside / above the root, to "
@@ -233,5 +275,5 @@ def main(chk):
              "the option: exactly the plain walk. Non-trivial = a directory behind a link is reachable; distinct by (link kinds, spelling, "
              "mode, identities).",
         assumptions=["reachability is computed with os.path.realpath / os.path.isdir on the harness side", "with a depth window only the safety clauses are judged, except windows that exclude nothing (mindepth 0/1, maxdepth 0/90), which are judged like no window"],
-        require={"link_kinds": 11, "cases": 5, "spelling": 5, "two_followed_roots": 50},
+        require={"link_kinds": 11, "cases": 6, "spelling": 5, "two_followed_roots": 50},
     )
